@@ -306,7 +306,7 @@ class Mod:
 
     def run(self, src):
         self.sources.append(src)
-        exec(compile(src, self.m.__name__, "exec"), self.m.__dict__)
+        exec(compile(src, self.m.__name__, "exec", dont_inherit=True), self.m.__dict__)   # do not inherit this file's __future__ flags
 
     def drop(self):
         sys.modules.pop(self.m.__name__, None)
@@ -439,7 +439,8 @@ def mk_union(ms):
     union other than Optional[NewType]: such unions are not generated"""
     non_none = [m for m in ms if m.name != "TNoneT"]
     if len(non_none) > 1:
-        ms = [m for m in ms if m.name != "TNew"]
+        kept = [m for m in ms if m.name != "TNew"]
+        ms = kept if [m for m in kept if m.name != "TNoneT"] else [non_none[0]] + [m for m in ms if m.name == "TNoneT"]
     return TUnion(*ms) if len(ms) >= 2 else ms[0]
 
 
@@ -471,7 +472,7 @@ def gen_prop_ty(rng, d, pos="top"):
     if k < 0.94:
         return TGen("CMapping", T_STR, gen_prop_ty(rng, d - 1, "arg"))
     inner = gen_prop_ty(rng, d - 1, "arg")
-    return TNew(inner)
+    return TNew(T_INT if inner.name == "TNoneT" else inner)
 
 
 def gen_node_elem(rng, opt, names=EARLY):
@@ -527,7 +528,8 @@ def gen_any_ty(rng, d, node_names, fwd_names, pos="top", under_nt=False):
         if c in ("CMapping", "CDict"):
             return TGen(c, T_STR, gen_any_ty(rng, d - 1, node_names, fwd_names, "arg", under_nt))
         return TGen(c, gen_any_ty(rng, d - 1, node_names, fwd_names, "arg", under_nt))
-    return TNew(gen_any_ty(rng, d - 1, [n for n in node_names if n in EARLY], [], "arg", True))
+    inner = gen_any_ty(rng, d - 1, [n for n in node_names if n in EARLY], [], "arg", True)
+    return TNew(T_INT if inner.name == "TNoneT" else inner)
 
 
 REASONS = {"Optional type in sequence": "ROptInSeq", "Mutable sequence": "RMutSeq",
